@@ -585,6 +585,19 @@ void Ports::dispatch(const char *m, rtosc::RtData &d, bool base_dispatch) const
                 const char* m_end;
                 if(!rtosc_match(port.name, m, &m_end))
                     continue;
+
+                //the location must fit into the buffer (an enumerated port
+                //takes its spelling - e.g. leading zeros - from the message)
+                size_t add = 0;
+                if(strchr(port.name,'#'))
+                    for(const char *msg = m; *msg && msg != m_end; ++msg)
+                        ++add;
+                else
+                    for(const char *n = port.name; *n && *n != ':'; ++n)
+                        ++add;
+                if((size_t)(old_end-d.loc) + add + 1 > d.loc_size)
+                    continue;
+
                 if(!port.ports)
                     d.matches++;
 
@@ -637,6 +650,10 @@ void Ports::dispatch(const char *m, rtosc::RtData &d, bool base_dispatch) const
             //Verify the chosen port is correct
             if(__builtin_expect(impl->hard_match(port_num, m), 1)) {
                 const Port &port = ports[impl->remap[t]];
+                //the location must fit into the buffer
+                if((size_t)(old_end-d.loc) + impl->fixed[port_num].length()
+                        + 1 > d.loc_size)
+                    return;
                 if(!port.ports)
                     d.matches++;
 
